@@ -264,9 +264,9 @@ var kinds = []struct {
 
 func maxN(tier string) int {
 	if tier == "thorough" {
-		return 16
+		return 24
 	}
-	return 9
+	return 14
 }
 
 // enumerated case c = (n, family): the fault-free run, then EVERY write position k and
@@ -363,14 +363,14 @@ func main() {
 		Assumptions: []string{
 			"a Write that returns n < len(p) with a nil error violates the io.Writer contract and is never injected",
 			"the weight function is deterministic and total on 0 <= j < i < n",
-			"n <= 16 and the listed weight families (plus tape-random weights) sample the input dimension; the write-failure dimension is enumerated completely for each of them",
+			"n <= 14 (quick) / 24 (thorough) and the listed weight families (plus tape-random weights) sample the input dimension; the write-failure dimension is enumerated completely for each of them",
 		},
 		Real:  []string{"tsp.LIB", "text/tabwriter", "fmt"},
 		Stubs: []string{"io.Writer (simulated disk: records bytes, fails on schedule)", "weights callback (records its arguments)"},
 		Plan: func(tier string) driver.Plan {
-			p := driver.Plan{Enum: (maxN(tier) + 1) * len(families(nil)), Random: 4000, Exhaustive: true, WallLimit: 5 * time.Minute}
+			p := driver.Plan{Enum: (maxN(tier) + 1) * len(families(nil)), Random: 60000, Exhaustive: true, WallLimit: 5 * time.Minute}
 			if tier == "thorough" {
-				p.Random = 200000
+				p.Random = 2000000
 				p.WallLimit = 20 * time.Minute
 			}
 			return p
